@@ -72,6 +72,11 @@ func genSpec(r *rand.Rand, name string) adapt.TableSpec {
 			s.Indexes[i].Proj, s.Indexes[i].NonKey = "INCLUDE", []string{"v"}
 		}
 	}
+	if len(s.Indexes) > 0 && r.Intn(25) == 0 {
+		// two indexes of one name in one CreateTable (another key schema, global next to global or next to the local
+		// one): the request is refused
+		s.Indexes = append(s.Indexes, adapt.IndexSpec{Name: mon.Pick(r, s.Indexes).Name, Hash: "s", Range: "g"})
+	}
 	// the order in which a request lists its indexes carries no meaning
 	r.Shuffle(len(s.Indexes), func(i, j int) { s.Indexes[i], s.Indexes[j] = s.Indexes[j], s.Indexes[i] })
 	return s
@@ -214,10 +219,18 @@ func genOp(r *rand.Rand, m *model.Client, w opWeights, salt int) adapt.Op {
 				if r.Intn(5) == 0 {
 					return adapt.Op{Kind: adapt.OpUpdateTable, Table: name, Chg: []adapt.IndexChange{{Update: mon.Pick(r, []string{"gsi1", "gsi2", "gsi3", "nosuch"})}}}
 				}
-				del := mon.Pick(r, []string{"gsi1", "gsi2", "gsi3", "gsi4", "gsi5", "nosuch"})
-				if del == "lsi1" {
-					del = "nosuch"
+				if len(t.Spec.Indexes) > 0 && r.Intn(8) == 0 {
+					// an index under a name that is TAKEN (by a global or by the local index), with another key schema:
+					// refused - the existing index is not replaced; alone or after a change that would succeed
+					taken := mon.Pick(r, t.Spec.Indexes).Name
+					chg := []adapt.IndexChange{{Create: &adapt.IndexSpec{Name: taken, Hash: "s", Range: "g"}}}
+					if !have["gsi3"] && r.Intn(2) == 0 {
+						chg = append([]adapt.IndexChange{{Create: &adapt.IndexSpec{Name: "gsi3", Hash: "s"}}}, chg...)
+					}
+					return adapt.Op{Kind: adapt.OpUpdateTable, Table: name, Chg: chg}
 				}
+				// (lsi1: the local index cannot be deleted by an UpdateTable - it is no global secondary index)
+				del := mon.Pick(r, []string{"gsi1", "gsi2", "gsi3", "gsi4", "gsi5", "nosuch", "lsi1"})
 				return adapt.Op{Kind: adapt.OpUpdateTable, Table: name, Chg: []adapt.IndexChange{{Delete: del}}}
 			}
 			return adapt.Op{Kind: adapt.OpUpdateTable, Table: name, Chg: []adapt.IndexChange{{Delete: "gsi1"}}}
